@@ -21,6 +21,7 @@ import (
 	"math/rand"
 	"regexp"
 	"strings"
+	"sync"
 	"time"
 
 	"github.com/olareg/olareg"
@@ -424,6 +425,30 @@ func (e *env) directed(rng *rand.Rand) {
 			}
 			break
 		}
+	}
+	// several clients delete the same blob at the same moment: one is acknowledged, the others are late - not found
+	for round := 0; round < 4; round++ {
+		cb := []byte(fmt.Sprintf("blob deleted by many %d %d", e.idx, round))
+		cd := vh.DigestOf("sha256", cb)
+		if vh.Do(e.srv, vh.Req{Method: "POST", URL: "/v2/r/blobs/uploads/?digest=" + cd, Body: cb}).Status != 201 {
+			continue
+		}
+		var dw sync.WaitGroup
+		res := make([]vh.Resp, 8)
+		rq := vh.Req{Method: "DELETE", URL: "/v2/r/blobs/" + cd}
+		for k := range res {
+			dw.Add(1)
+			go func(k int) {
+				defer dw.Done()
+				res[k] = vh.Do(e.srv, rq)
+			}(k)
+		}
+		dw.Wait()
+		for _, rs := range res {
+			e.observe(rq, rs, "", "directed:concurrent-blob-delete")
+		}
+		e.r.Count("directed_conditions", 1)
+		e.r.Distinct("directed_classes", "concurrent-blob-delete")
 	}
 	// a session that the client itself ends (DELETE) while the body of its own PATCH / completing PUT is still on its
 	// way: the rest of the body belongs to no session - a client matter, answered with a 4xx
